@@ -233,49 +233,49 @@ func buildCorpus() []corpusEntry {
 	M("map with twin keys", append(append([]byte{0x82, 0xa3}, []byte("é")...), append([]byte{0x01, 0xa2}, append([]byte("é"), 0x02)...)...), cty.Map(num))
 	// refinements (F-23)
 	refn := map[string][]byte{
-		"F-23 not-null then null":                 hx("82 01c2 01c3"),
-		"F-23 null then not-null":                 hx("82 01c3 01c2"),
-		"null then null":                          hx("82 01c3 01c3"),
-		"F-23 length upper bound -1":              hx("81 06ff"),
-		"length lower bound -1":                   hx("81 05ff"),
-		"F-23 length 3..1":                        hx("82 0503 0601"),
-		"F-23 length upper 1 then lower 3":        hx("82 0601 0503"),
-		"length bound max uint64":                 hx("81 06 cfffffffffffffffff"),
-		"length bound min int64":                  hx("81 05 d38000000000000000"),
-		"length 2..2 not null":                    hx("83 01c2 0502 0602"),
-		"length 0..0 not null":                    hx("83 01c2 0500 0600"),
-		"length 1..1 not null":                    hx("83 01c2 0501 0601"),
-		"length bound is a string":                hx("81 05a161"),
-		"F-23 prefix a then b":                    hx("82 02a161 02a162"),
-		"prefix a then ab":                        hx("82 02a161 02a26162"),
-		"prefix invalid UTF-8":                    hx("81 02a2fffe"),
-		"prefix combining start":                  append(hx("81 02 a2"), []byte("́")...),
-		"prefix not NFC":                          append(hx("81 02 a3"), []byte("é")...),
-		"prefix is a number":                      hx("81 0201"),
-		"F-23 lower 5 upper 1":                    hx("82 039205c3 049201c3"),
-		"F-23 upper 1 then lower 5":               hx("82 049201c3 039205c3"),
-		"F-23 exclusive 1..1":                     hx("82 039201c2 049201c2"),
-		"inclusive 1..1 not null":                 hx("83 01c2 039201c3 049201c3"),
-		"lower +Inf upper 1":                      append(append(hx("82 03 92"), append(hx("cb 7ff0000000000000"), 0xc3)...), hx("04 9201c3")...),
-		"lower -Inf":                              append(hx("81 03 92"), append(hx("cb fff0000000000000"), 0xc3)...),
-		"upper -Inf exclusive":                    append(hx("81 04 92"), append(hx("cb fff0000000000000"), 0xc2)...),
-		"F-20 bound NaN":                          append(hx("81 03 92"), append(nanD, 0xc3)...),
-		"bound is an empty array":                 hx("81 0390"),
-		"bound holds null":                        hx("81 0392c0c3"),
-		"bound holds unknown":                     hx("81 0392d40000c3"),
-		"bound inclusive flag is null":            hx("81 039201c0"),
-		"bound is null":                           hx("81 03c0"),
-		"bound has three members":                 hx("81 039301c3c3"),
-		"bound number as string":                  hx("81 0392a3316535c3"),
-		"unknown key 9":                           hx("81 0901"),
-		"key is a string":                         hx("81 a16101"),
-		"map longer than its content":             hx("85 01c2"),
-		"body is not a map":                       hx("01 02"),
-		"body is an array":                        hx("92 0102"),
-		"body is a 32-bit map header 2^32-1":      hx("df ffffffff 01c2"),
-		"null then everything":                    hx("84 01c3 02a161 039201c3 0503"),
-		"not-null with trailing bytes":            hx("81 01c2 ffffff"),
-		"nested extension as bound":               hx("81 0392 c7030c8101c2 c3"),
+		"F-23 not-null then null":            hx("82 01c2 01c3"),
+		"F-23 null then not-null":            hx("82 01c3 01c2"),
+		"null then null":                     hx("82 01c3 01c3"),
+		"F-23 length upper bound -1":         hx("81 06ff"),
+		"length lower bound -1":              hx("81 05ff"),
+		"F-23 length 3..1":                   hx("82 0503 0601"),
+		"F-23 length upper 1 then lower 3":   hx("82 0601 0503"),
+		"length bound max uint64":            hx("81 06 cfffffffffffffffff"),
+		"length bound min int64":             hx("81 05 d38000000000000000"),
+		"length 2..2 not null":               hx("83 01c2 0502 0602"),
+		"length 0..0 not null":               hx("83 01c2 0500 0600"),
+		"length 1..1 not null":               hx("83 01c2 0501 0601"),
+		"length bound is a string":           hx("81 05a161"),
+		"F-23 prefix a then b":               hx("82 02a161 02a162"),
+		"prefix a then ab":                   hx("82 02a161 02a26162"),
+		"prefix invalid UTF-8":               hx("81 02a2fffe"),
+		"prefix combining start":             append(hx("81 02 a2"), []byte("́")...),
+		"prefix not NFC":                     append(hx("81 02 a3"), []byte("é")...),
+		"prefix is a number":                 hx("81 0201"),
+		"F-23 lower 5 upper 1":               hx("82 039205c3 049201c3"),
+		"F-23 upper 1 then lower 5":          hx("82 049201c3 039205c3"),
+		"F-23 exclusive 1..1":                hx("82 039201c2 049201c2"),
+		"inclusive 1..1 not null":            hx("83 01c2 039201c3 049201c3"),
+		"lower +Inf upper 1":                 append(append(hx("82 03 92"), append(hx("cb 7ff0000000000000"), 0xc3)...), hx("04 9201c3")...),
+		"lower -Inf":                         append(hx("81 03 92"), append(hx("cb fff0000000000000"), 0xc3)...),
+		"upper -Inf exclusive":               append(hx("81 04 92"), append(hx("cb fff0000000000000"), 0xc2)...),
+		"F-20 bound NaN":                     append(hx("81 03 92"), append(nanD, 0xc3)...),
+		"bound is an empty array":            hx("81 0390"),
+		"bound holds null":                   hx("81 0392c0c3"),
+		"bound holds unknown":                hx("81 0392d40000c3"),
+		"bound inclusive flag is null":       hx("81 039201c0"),
+		"bound is null":                      hx("81 03c0"),
+		"bound has three members":            hx("81 039301c3c3"),
+		"bound number as string":             hx("81 0392a3316535c3"),
+		"unknown key 9":                      hx("81 0901"),
+		"key is a string":                    hx("81 a16101"),
+		"map longer than its content":        hx("85 01c2"),
+		"body is not a map":                  hx("01 02"),
+		"body is an array":                   hx("92 0102"),
+		"body is a 32-bit map header 2^32-1": hx("df ffffffff 01c2"),
+		"null then everything":               hx("84 01c3 02a161 039201c3 0503"),
+		"not-null with trailing bytes":       hx("81 01c2 ffffff"),
+		"nested extension as bound":          hx("81 0392 c7030c8101c2 c3"),
 	}
 	rtargets := []cty.Type{str, num, boo, cty.List(str), cty.Set(num), cty.Map(boo), tup(str), obj("a", str), dyn}
 	for _, k := range sortedNames(refn) {
